@@ -10,7 +10,8 @@ Open Scope list_scope.
 (* every function named in translators/strfn.go is still inside the translated subset *)
 Theorem C15_sources_translated :
   src_rpm_defaultTo_translated && src_rpm_formatVersion_translated && src_rpm_filename_translated && src_deb_filename_translated
-  && src_ipk_filename_translated && src_apk_pkgver_translated && src_apk_filename_translated = true.
+  && src_ipk_filename_translated && src_apk_pkgver_translated && src_apk_filename_translated
+  && src_arch_mapValidChar_translated && src_arch_validPkgName_translated && src_arch_filename_translated = true.
 Proof. exact all_translated. Qed.
 Print Assumptions C15_sources_translated.
 
@@ -36,3 +37,10 @@ Theorem C15_apk_source_is_the_model : forall archtab i,
   src_apk_filename i (translate_arch archtab (gs i "apk.arch") (gs i "arch")) = model_filename FApk archtab i.
 Proof. exact src_apk_filename_is_model. Qed.
 Print Assumptions C15_apk_source_is_the_model.
+
+(* archlinux: Atoi of the release with 1 for anything that is not a number, "-" of the prerelease turned into "_", and
+   the name cleaned by strings.Map(mapValidChar) and TrimLeft("-.") - mapValidChar read as a test on bytes *)
+Theorem C15_archlinux_source_is_the_model : forall archtab i,
+  src_arch_filename i (translate_arch archtab (gs i "archlinux.arch") (gs i "arch")) = model_filename FArch archtab i.
+Proof. exact src_arch_filename_is_model. Qed.
+Print Assumptions C15_archlinux_source_is_the_model.
